@@ -8,7 +8,37 @@
    A rejected first parse demands nothing. *)
 From JV Require Import Lib.Base Model.C10Adapt.
 
-(* value-and-kind equality; set elements in any order *)
+(* value-and-kind equality; set elements in any order, dict items IN ORDER (used for the model tie) *)
+Fixpoint veq_o (a b : val) {struct a} : bool :=
+  match a, b with
+  | VNone, VNone => true
+  | VBool x, VBool y => Bool.eqb x y
+  | VInt x, VInt y => Z.eqb x y
+  | VFloat x, VFloat y => fl_eqb x y
+  | VStr x, VStr y => str_eqb x y
+  | VList x, VList y | VTuple x, VTuple y =>
+      (fix go (x y : list val) : bool :=
+         match x, y with
+         | [], [] => true
+         | a :: x', b :: y' => veq_o a b && go x' y'
+         | _, _ => false
+         end) x y
+  | VSet x, VSet y =>
+      Nat.eqb (length x) (length y) && forallb (fun a => existsb (veq_o a) y) x
+  | VDict x, VDict y =>
+      (fix go (x y : list (val * val)) : bool :=
+         match x, y with
+         | [], [] => true
+         | (k, a) :: x', (k', b) :: y' => veq_o k k' && veq_o a b && go x' y'
+         | _, _ => false
+         end) x y
+  | VEnum c m, VEnum c' m' => str_eqb c c' && str_eqb m m'
+  | VOpaque k r, VOpaque k' r' => str_eqb k k' && str_eqb r r'
+  | _, _ => false
+  end.
+
+
+(* the property's equality: as above but dict items in any order, like Python's == on dict / Namespace *)
 Fixpoint veq (a b : val) {struct a} : bool :=
   match a, b with
   | VNone, VNone => true
@@ -26,12 +56,12 @@ Fixpoint veq (a b : val) {struct a} : bool :=
   | VSet x, VSet y =>
       Nat.eqb (length x) (length y) && forallb (fun a => existsb (veq a) y) x
   | VDict x, VDict y =>
-      (fix go (x y : list (val * val)) : bool :=
-         match x, y with
-         | [], [] => true
-         | (k, a) :: x', (k', b) :: y' => veq k k' && veq a b && go x' y'
-         | _, _ => false
-         end) x y
+      Nat.eqb (length x) (length y)
+      && (fix go (x : list (val * val)) : bool :=
+            match x with
+            | [] => true
+            | (k, a) :: x' => existsb (fun kb => veq k (fst kb) && veq a (snd kb)) y && go x'
+            end) x
   | VEnum c m, VEnum c' m' => str_eqb c c' && str_eqb m m'
   | VOpaque k r, VOpaque k' r' => str_eqb k k' && str_eqb r r'
   | _, _ => false
